@@ -23,6 +23,9 @@ def ensure(mod, pkg):
 
 
 ensure("hypothesis", "hypothesis")
+# atheris (coverage-guided campaigns of C10/C11/C17/C19) lives beside the checkout, not in /venv
+from vlib import engine  # noqa: E402
+print("atheris available:", engine.ensure_atheris())
 from vlib import ref  # noqa: E402
 ref.selftest_all()
 for d in ("evidence", "replays", ".work"):
